@@ -209,6 +209,7 @@ class KmipEngine(object):
                 the request batch items.
         """
         self._client_identity = [None, None]
+        self._id_placeholder = None
         header = request.request_header
 
         # Process the protocol version
